@@ -183,6 +183,40 @@ def _public(ctx: Ctx, item):
                     got = (r.PGN, r.source, r.destination, r.priority) if r is not None else None
                     if got != exp and (got is not None or _fresh_ok(second)):
                         out.append((f"C05|cross-entry-point|{name}", f"{case}: after a {name.split('-')[0]} packet with the same identifier bytes the message came back as {got}, expected {exp}", case))
+            # (a) a message handed out earlier keeps its header when the same data arrives again under another identifier;
+            # (b) a received message whose addressing the application changes (a bridge re-targets it) is sent with the new identifier
+            if not d.fast:
+                from .. import wire
+                pk1 = NMEA2000Encoder().encode_ebyte(m)[0]
+                data1 = pk1[5:5 + (pk1[0] & 0x0F)]
+                prio2, dest2 = (prio + 3) % 8, (dest ^ 0x2D) & 0xFF if pdu1 else dest
+                dd = NMEA2000Decoder()
+                try:
+                    r1 = dd.decode_tcp(pk1)
+                    snap = (r1.PGN, r1.source, r1.destination, r1.priority) if r1 is not None else None
+                    r2 = dd.decode_tcp(wire.ebyte(wire.ident(d.pgn, src, dest2 if pdu1 else 255, prio2), data1))
+                except Exception:
+                    r1 = r2 = None
+                if r1 is not None and r2 is not None:
+                    ctx.klass("same_data_other_identifier")
+                    if (r1.PGN, r1.source, r1.destination, r1.priority) != snap:
+                        out.append(("C05|earlier-result-rewritten", f"{case}: the message returned first reported {snap}; after the same data arrived with priority {prio2} / destination "
+                                    f"{dest2 if pdu1 else 255} it reports {(r1.PGN, r1.source, r1.destination, r1.priority)}", case))
+                    exp2 = (d.pgn, src, dest2 if pdu1 else 255, prio2)
+                    if (r2.PGN, r2.source, r2.destination, r2.priority) != exp2:
+                        out.append(("C05|repeat-other-identifier", f"{case}: same data under another identifier came back as {(r2.PGN, r2.source, r2.destination, r2.priority)}, expected {exp2}", case))
+                    # (b) re-target the received message and send it
+                    r2.priority, r2.destination = prio, dest
+                    try:
+                        ident_b = int.from_bytes(NMEA2000Encoder().encode_ebyte(r2)[0][1:5], "big")
+                        ident_u = int.from_bytes(NMEA2000Encoder().encode_usb(r2)[0][5:9], "little")
+                        ident_y = int(NMEA2000Encoder().encode_yacht_devices(r2)[0][:8].decode(), 16)
+                    except Exception:
+                        ident_b = ident_u = ident_y = None
+                    for fmt, ident in (("ebyte", ident_b), ("usb", ident_u), ("yd", ident_y)):
+                        if ident is not None and ref_parse(ident) != exp:
+                            out.append((f"C05|retargeted-message|{fmt}", f"{case}: a received message re-targeted to priority {prio} / destination {dest} was sent with identifier "
+                                        f"{ident:#x} which reads as {ref_parse(ident)}", case))
             # fast-packet PGNs: the stream's previous message was sent with another priority and never completed (its tail was lost);
             # the next complete message comes back with the priority its own frames carry
             if d.fast:
@@ -218,7 +252,45 @@ def _public(ctx: Ctx, item):
                     "ebyte_identifier": NMEA2000Encoder().encode_ebyte(m)[0][1:5].hex(), "examples_drawn": n_examples})
 
 
+def _repeat(ctx: Ctx, keys):
+    """Every single-frame definition the decoder supports (also the ones that cannot be encoded, e.g. the ISO address claim): the same
+    data under two identifiers on one decoder - both messages report their own identifier, the first one also afterwards."""
+    from .. import canboat, gen, wire
+    from nmea2000.decoder import NMEA2000Decoder
+    db = canboat.db()
+    for key in keys:
+        d = db.by_key[key]
+        bp, bn, _ = gen.benign_payload(d)
+        if bn > 8:
+            continue
+        data = bp.to_bytes(bn, "little")
+        pdu1 = ((d.pgn >> 8) & 0xFF) < 240
+        for src, (p1, d1), (p2, d2) in ((5, (6, 255), (3, 40)), (0, (0, 0), (7, 255)), (253, (2, 17), (2, 18)), (17, (7, 254), (0, 254))):
+            dec = NMEA2000Decoder()
+            e1 = (d.pgn, src, d1 if pdu1 else 255, p1)
+            e2 = (d.pgn, src, d2 if pdu1 else 255, p2)
+            try:
+                r1 = dec.decode_tcp(wire.ebyte(wire.ident(d.pgn, src, e1[2], p1), data))
+                r2 = dec.decode_tcp(wire.ebyte(wire.ident(d.pgn, src, e2[2], p2), data))
+            except Exception:
+                continue
+            if r1 is None or r2 is None:
+                continue
+            ctx.count()
+            ctx.nt((key, src, p1, d1, p2, d2))
+            case = {"repeat": key, "source": src, "first": [p1, d1], "second": [p2, d2]}
+            g1, g2 = (r1.PGN, r1.source, r1.destination, r1.priority), (r2.PGN, r2.source, r2.destination, r2.priority)
+            if g1 != e1:
+                ctx.report("C05|earlier-result-rewritten", f"{key}: the message decoded from identifier {e1} reports {g1} after the same data arrived under {e2}", case)
+            if g2 != e2:
+                ctx.report("C05|repeat-other-identifier", f"{key}: the same data under identifier {e2} came back as {g2}", case)
+    ctx.klass("same_data_two_identifiers_definitions", len(keys))
+
+
 def run(ctx: Ctx):
+    from .. import canboat as _cb
+    single = [d.key for d in _cb.db().defs if d.supported and not d.fast and d.ptype == "Single"]
+    pmap(ctx, _repeat, common.chunks(single, 16))
     from .. import canboat
     # 1. identifier space
     U = 1 << 21
@@ -248,6 +320,11 @@ def _sweep_list(ctx: Ctx, uppers):
 
 
 def replay(ctx: Ctx, case):
+    if "repeat" in case:
+        sub = Ctx(ctx.pid)
+        sub.known_open = {}
+        _repeat(sub, [case["repeat"]])
+        return [(b, v["what"], v["case"]) for b, v in sub.found.items()]
     from nmea2000.decoder import NMEA2000Decoder
     from nmea2000.encoder import NMEA2000Encoder
     if "ident" in case:
